@@ -37,12 +37,13 @@ PROP = dict(
                    floors={"mpt_stream_input": 20000, "input.dispatch": 100000, "reply_context.reply": 100000,
                            "stream:request-dispatched": 100000, "peer:frames-received": 100000, "peer:default-replies": 30000,
                            "monitor:reply-id-compared": 100000, "monitor:reply-body-compared": 50000,
-                           "monitor:further-reply-refused": 30000, "request:without-id": 10000})],
+                           "monitor:further-reply-refused": 30000, "request:without-id": 10000,
+                           "peer:id-only-requests": 20000, "request:id-only-dispatched": 20000})],
         rule=("c12_id: case = one boundary (id, width) pair or one random id run through widths 0..9 together with nine random headers; "
               "non-trivial = non-zero id accepted by at least one width > 0 (or, for boundary pairs, a refusal within one bit of the width's "
               "limit).  c12_reply: case = one history of 4..24 (thorough 40) operations on one reply context followed by release of everything "
               "still held in PRNG order; non-trivial = at least two requests armed and at least two sends reached the transport; "
-              "c12_stream: case = 1..4 bursts of 1..4 framed requests on one stream input; non-trivial = at least two requests and one reply; "
+              "c12_stream: case = 1..4 bursts of 1..4 framed requests (payload 0..12 bytes, half of them 0, 1 or 2 bytes; 0 = request consisting of the id only) on one stream input; non-trivial = at least two requests and one reply; "
               "distinct = 64-bit hash of id / operation list with arguments, message bytes and transport verdicts"),
         exhaustive_note="boundary ids {0,1,0x7f,0x80,2^k-1,2^k,2^k+1 (k=0..63),2^64-1} x widths 0..9",
         assumptions=SAN_BASE + [
